@@ -62,7 +62,7 @@ EMPTY = z3.StringVal("")
 SPEC_FUNCS = (
     "joined old count n_count first_start last_end chain_ok span_ok joined_values "
     "implies is_none appended length seq_of at unchanged strip lstrip rstrip isspace "
-    "startswith endswith contains substr ite same present is_ctor or_empty field refs_closed writes_only has_op declares_param defines chars_subset differs_only_at"
+    "startswith endswith contains substr ite same present is_ctor or_empty field refs_closed writes_only has_op declares_param defines chars_subset differs_only_at is_suffix"
 ).split()
 
 
@@ -591,7 +591,7 @@ class Engine(object):
             qual = "%s:%s" % (mod, qn)
             if qual in self.contracts:
                 return VContractFn(qual)
-            if obj in (len, all, any, tuple, list, dict, filter, map, enumerate, isinstance, range, abs, bool, str, int, min, max, slice, frozenset, set, type, float, complex):
+            if obj in (len, all, any, tuple, list, dict, filter, map, enumerate, isinstance, range, abs, bool, str, int, min, max, slice, frozenset, set, type, float, complex, getattr, setattr):
                 return VBuiltin(obj.__name__)
             if mod == "collections" and qn == "deque":
                 return VBuiltin("deque")
@@ -974,6 +974,8 @@ class Engine(object):
             s_old = st.fork()
             s_old.frames = [dict(frame0)]
             s_old.heap = dict(heap0)
+            if "__old_paths__" in st.ghost:
+                s_old.ghost["__paths__"] = dict(st.ghost["__old_paths__"])  # access paths as they were at entry
             v = self._eval_spec_node(e.args[0], s_old)
             if isinstance(v, VRef):
                 # re-home the old object into the current heap under a fresh reference
@@ -1013,6 +1015,19 @@ class Engine(object):
                     except Unsupported as ex:
                         extra = [recv] if (isinstance(recv, VRef) and f.attr in self.MUTATORS) else []
                         outs.append((s2, self.abstract_call(e, extra + list(args) + list(kwargs.values()), s2, str(ex))))
+            return outs
+        if ast.unparse(e).startswith("list(islice(cycle((None,)), ") and isinstance(f, ast.Name) and f.id == "list" and len(e.args) == 1:
+            # idiom: a list of n Nones
+            n_expr = e.args[0].args[1]
+            outs = []
+            for s, nv in self.eval(n_expr, st):
+                if not isinstance(nv, VInt):
+                    raise Unsupported("islice count")
+                lo, asm = ListObj.fresh("seq", "nones", Opaque)
+                s.assume(*asm)
+                s.assume(lo.len == z3.If(nv.z < 0, 0, nv.z))
+                self.assumptions.add("stdlib idiom spec: list(islice(cycle((None,)), n)) is a list of n elements (all None)")
+                outs.append((s, s.alloc(lo)))
             return outs
         if (
             isinstance(f, ast.Name) and f.id == "count_iter_items" and len(e.args) == 1 and not e.keywords
@@ -1164,6 +1179,11 @@ class Engine(object):
             return [(st, st.alloc(RecordObj({k: (z3.BoolVal(True), v) for k, v in kwargs.items()})))]
         if name == "partial" and args:
             return [(st, VPartial(args[0], args[1:], kwargs))]
+        if name == "getattr" and len(args) == 2 and isinstance(args[1], VStr) and z3.is_string_value(args[1].z):
+            return [(st, self.get_attr(args[0], args[1].z.as_string(), st, e))]
+        if name == "setattr" and len(args) == 3 and isinstance(args[0], VOpaque) and getattr(args[0], "path", None) and isinstance(args[1], VStr) and z3.is_string_value(args[1].z):
+            st.ghost.setdefault("__paths__", {})[args[0].path + "." + args[1].z.as_string()] = args[2]
+            return [(st, VNone())]
         if name in ("frozenset", "set") and len(args) == 1 and isinstance(args[0], VTuple) and all(isinstance(i, VStr) and z3.is_string_value(i.z) for i in args[0].items):
             return [(st, VPy(frozenset(i.z.as_string() for i in args[0].items), "frozenset"))]
         if name in ("frozenset", "set") and len(args) == 1 and isinstance(args[0], VStr):
@@ -1483,6 +1503,11 @@ class Engine(object):
             return VBool(c if c is not None else z3.BoolVal(False))
         if name in ("refs_closed", "writes_only", "has_op", "declares_param", "defines"):
             return self.tree_spec(name, args, st)
+        if name == "is_suffix":
+            a_, b_ = lst(args[0]), lst(args[1])
+            if a_.kind == "empty":
+                return VBool(True)
+            return VBool(z3.And(z3.SuffixOf(a_.g["seq"], b_.g["seq"]), a_.len <= b_.len))
         if name == "differs_only_at":
             a_, b_ = lst(args[0]), lst(args[1])
             if a_.kind != "seq" or b_.kind != "seq":
